@@ -2,8 +2,6 @@ SPECIFICATION Spec
 INVARIANT PreExistingPreserved
 INVARIANT CreatedGone
 INVARIANT EndsWithExit
-INVARIANT StartsAtPre
 INVARIANT FsFollows
 INVARIANT CrFollows
 INVARIANT ResFollows
-PROPERTY Chained
